@@ -955,14 +955,40 @@ def check(case, M):
         else:
             failures.append({"kind": "oracle", "what": what, "detail": detail})
     # ---- model
-    if biggest > MODEL_CAP:
-        tags.append("model-skipped(table too large)")
-        if in_region:
-            # inside a known-defect region only the model can tell the known deviation from a new one
-            tags.append("unverified-region-deviation")
-        return res
     prim_syms = [P for P in cfg.primitives_used()]
     var_syms = cfg.variables()
+    if biggest > MODEL_CAP:
+        # the tables are too large for the association-list model: its LANGUAGE is known by theorem C05_sharpen
+        # (accepts = sharpenSpec (cfg2dfta G).accepts (parsed tokens)); parsed tokens and the base table are still compared
+        tags.append("model-by-theorem(table too large)")
+        ans = ask(M, [Sym("c05.lang"), model_fixes(), wcfg, [W.sym_wire(p) for p in prim_syms], [W.sym_wire(v) for v in var_syms],
+                      strings, [Sym("some"), sketch_text] if sk_item else [Sym("none")], wprogs])
+        stage = None
+        if ans[0] == "fail":
+            stage = str(ans[1])
+            ans = [ans[0]] + ans[2:]
+        m_toks = [canon_tok(x) for x in ans[1]] + ([canon_tok(ans[2])] if sk_item else [])
+        if m_toks != impl_toks:
+            j = next(k for k in range(len(m_toks)) if m_toks[k] != impl_toks[k])
+            failures.append({"kind": "corr", "what": "parsed token tree differs from the model",
+                             "detail": f"string {(strings + [sketch_text])[j]!r}: library {impl_toks[j]} / model {m_toks[j]}"})
+        if stage is not None:
+            if impl_err is None:
+                failures.append({"kind": "corr", "what": "model raises, library does not", "detail": f"stage {stage}"})
+            return res
+        if impl_err is not None:
+            failures.append({"kind": "corr", "what": "library raises, model does not", "detail": f"{impl_err}"})
+            return res
+        ib = sorted(json.dumps([str(P), [[str(a[0]), a[1]] for a in args], [str(d[0]), d[1]]]) for (P, args), d in ibase.rules.items())
+        mb = sorted(json.dumps([str(r[0]), [[str(a[0]), int(a[1])] for a in r[1]], [str(r[2][0]), int(r[2][1])]]) for r in ans[3])
+        if ib != mb:
+            failures.append({"kind": "corr", "what": "__cfg2dfta__ rule table differs from the model", "detail": f"{len(ib)} vs {len(mb)} rules"})
+        m_acc = str(ans[4])
+        if i_acc != m_acc:
+            k = next(j for j in range(len(progs)) if i_acc[j] != m_acc[j])
+            failures.append({"kind": "corr", "what": "acceptance differs from the model (language by theorem C05_sharpen)",
+                             "detail": f"{tstr(named[k])}: library {i_acc[k]} / model {m_acc[k]}"})
+        return res
     ans = ask(M, [Sym("c05.sharpen"), model_fixes(), wcfg, [W.sym_wire(p) for p in prim_syms], [W.sym_wire(v) for v in var_syms],
                   strings, [Sym("some"), sketch_text] if sk_item else [Sym("none")], wprogs])
     stage = None
@@ -996,7 +1022,9 @@ def check(case, M):
         res["nontrivial"] = True
         return res
     m_steps, m_sk, m_final = num(ans[hdr + 2]), num(ans[hdr + 3]), num(ans[hdr + 4])
-    m_acc, m_read, m_spec, base_bits, _ing = [str(x) for x in ans[hdr + 5: hdr + 10]]
+    m_acc, m_read, m_spec, base_bits, m_thm = [str(x) for x in ans[hdr + 5: hdr + 10]]
+    if m_acc != m_thm:
+        raise RuntimeError("Lean model's automaton and sharpenSpec over L(cfg2dfta G) disagree (contradicts theorem C05_sharpen)")
     if impl_err is not None:
         failures.append({"kind": "corr", "what": "library raises, model does not", "detail": f"{impl_err}"})
         return res
